@@ -24,10 +24,13 @@ func init() {
 			"Spec.Requirements is the serialization of that filtered set; labels, annotations, owner reference and Spec come from the template; NewNodeClaimTemplate stamps hash, hash version, nodepool and nodeclass labels from the NodePool; " +
 			"(4) InstanceTypes.Truncate succeeds under a strict policy only if the truncated list itself satisfies minValues; TruncateInstanceTypes keeps a claim only if Truncate succeeded, otherwise every pod of it gets a PodError; " +
 			"provisioning and simulation truncate before anything is created; (5) NodeClaim.Add merges the pod's requests into Spec.Resources.Requests, Solve finalizes every new claim and FinalizeScheduling adds daemon overhead; " +
-			"Provisioner.Create writes exactly ToNodeClaim() of the scheduled claim.",
+			"Provisioner.Create writes exactly ToNodeClaim() of the scheduled claim; " +
+			"(6) the first result of InstanceTypes.SatisfiesMinValues is a count: on the success return inside its walk it is the position of the instance type accumulated last plus a constant a, after the walk len plus a'; " +
+			"success under minValues is only reported when no key is left unmet; every store to the replacement's InstanceTypeOptions in computeSpotToSpotConsolidation that follows the price/minValues validation either runs without minValues " +
+			"or keeps a prefix lo.Slice(options, 0, n) of the claim's own list with n ≥ that count (taken for the same list under the claim's own requirements) + b, where a + b ≥ 1 and a' + b ≥ 0 — the instance type that completes the floors is never cut off.",
 		NotCovered: []string{
 			"round-trip equality of admitted value sets for every operator combination (value-level)",
-			"that SatisfiesMinValues / OrderByPrice compute what their names say (C19 decides the comparator)",
+			"that SatisfiesMinValues accumulates the right values per key and that OrderByPrice sorts by price (C19 decides the comparator); only the meaning of the returned count and its success guard are decided",
 			"the daemon-overhead arithmetic (minimum over groups) and resource merging",
 		},
 		Rules: c13Rules,
@@ -65,6 +68,10 @@ func c13Rules(tier string) []Rule {
 		}
 		return []core.Result{core.OK(id, "PROV", "PROV:"+f+":truncate-requirements", n, "Truncate(nc.InstanceTypeOptions, nc.Requirements, max)")}
 	}})
+	// the count SatisfiesMinValues hands back is a number of leading instance types, and the one caller that cuts a
+	// validated list with it (spot-to-spot consolidation, which writes its replacement through the same Create path)
+	// keeps at least that many — otherwise the launch request carries minValues its own instance-type list cannot meet
+	rules = append(rules, minValuesCountRules("C13")...)
 	return rules
 }
 
